@@ -244,6 +244,9 @@ def check_property(prop, tier, extra_checks=None, seed=0):
   t0 = time.time()
   load_all()
   harnesses = [h for h in _REGISTRY.values() if prop in h.properties]
+  if tier == "quick":
+    # a harness may leave the quick tier of a *secondary* property (its paths are all run in the thorough tier)
+    harnesses = [h for h in harnesses if h.properties[0] == prop or prop not in getattr(h, "thorough_only_for", ())]
   if not harnesses and not extra_checks:
     print("no harness registered for %s" % prop)
     return EXIT_INCONCLUSIVE
